@@ -1372,6 +1372,31 @@ func runC13(c *run.Ctx, s *kit.Summary) {
 		cr.slow = false
 		s.Count(fmt.Sprintf("cli:long_set_records>=%d", n/100*100))
 	}
+	// dedicated sets, every run: every result carries the same header keys with 2–3 values each; the first
+	// values come from a tiny pool (neighbouring results often agree in all of them), the later values are
+	// unique. Which results are neighbours differs between the union and the splits.
+	for k := 0; k < 2; k++ {
+		set := make([]gen.ResultSpec, 10+r.Pick(8))
+		for i := range set {
+			set[i] = gen.InterResult(r, base+uint64(i), -1)
+			set[i].Headers = gen.ServerHeaders(r, base+uint64(i))
+		}
+		base += uint64(len(set)) + 7
+		var even, odd []int
+		for i := range set {
+			if i%2 == 0 {
+				even = append(even, i)
+			} else {
+				odd = append(odd, i)
+			}
+		}
+		cr.runSet(set, [][][]int{{even, odd}, genSplit(r, len(set)), genSplit(r, len(set))}, func(k int) [][]string {
+			all := allAssignments(k)
+			r.Shuffle(len(all), func(x, y int) { all[x], all[y] = all[y], all[x] })
+			return all[:min(len(all), 9)]
+		}, false)
+		s.Count("cli:set_with_repeating_first_header_values")
+	}
 	// dedicated sets, every run: records in completion order; the record that began first ends last and sits
 	// at the head of the 2nd / 3rd file (it arrives as a new Earliest after other records and also holds End)
 	for k := 0; k < 3; k++ {
